@@ -1,5 +1,6 @@
 import GoframeModel.Core.Heap
 import GoframeModel.Step
+import GoframeModel.Lemmas.Heap
 /-
   C02 — derived frames share no mutable state with their source.
   Heap layer (Core/Heap.lean): Go slices into a store of backing arrays. The separation invariant `Sep`
@@ -9,14 +10,14 @@ import GoframeModel.Step
   driver executes. The pinned `Head` (sub-slices) is refuted on a witness.
 -/
 namespace Goframe.C02
-open Goframe Heap
+open Goframe Heap HeapLemmas
 
 /-- a freshly allocated result: separation is preserved, every existing frame keeps its value, and the
 new frame denotes exactly the allocated value -/
 theorem alloc_sep (h : H) (f : Frame) (hs : Sep h) :
     Sep (alloc h f) ∧ (∀ fid, fid < h.frames.length → view (alloc h f) fid = view h fid) ∧
     view (alloc h f) h.frames.length = f := by
-  sorry
+  exact alloc_spec h f hs
 
 /-- `col.Data[i] = v` on a column of frame `fid`: only that frame changes, and as the value model says -/
 theorem storeCell_frame (h : H) (hs : Sep h) (fid : Nat) (k : Str) (c : HCol) (i : Nat) (v : Cell)
@@ -26,7 +27,8 @@ theorem storeCell_frame (h : H) (hs : Sep h) (fid : Nat) (k : Str) (c : HCol) (i
     (∀ other, other ≠ fid → view (storeCell h c.data i v) other = view h other) ∧
     view (storeCell h c.data i v) fid =
       (view h fid).map (fun kc => if kc.1 = k then (kc.1, { kc.2 with data := kc.2.data.set i v }) else kc) := by
-  sorry
+  have _ := hi  -- the bound is not needed: a write past `len` is invisible in the slice
+  exact storeCell_spec h hs fid k c i v hk hnd
 
 /-- `AppendRow` (for every growth function of `append`): other frames are untouched even when the append
 writes in place into spare capacity; the target gains one cell per column -/
@@ -36,7 +38,7 @@ theorem appendRow_frame (g : Nat → Nat) (h : H) (hs : Sep h) (fid : Nat) (hf :
     (∀ other, other ≠ fid → other < h.frames.length → view (appendRowH g h fid vals) other = view h other) ∧
     view (appendRowH g h fid vals) fid =
       ((view h fid).zip vals).map (fun (kc, v) => (kc.1, { kc.2 with data := kc.2.data ++ [v] })) := by
-  sorry
+  exact appendRow_spec g h hs fid hf vals hv
 
 /-- `DropRow(i)`: the in-place shift is invisible elsewhere -/
 theorem dropRow_frame (h : H) (hs : Sep h) (fid : Nat) (hf : fid < h.frames.length) (i : Nat)
@@ -44,7 +46,7 @@ theorem dropRow_frame (h : H) (hs : Sep h) (fid : Nat) (hf : fid < h.frames.leng
     Sep (dropRowH h fid i) ∧
     (∀ other, other ≠ fid → other < h.frames.length → view (dropRowH h fid i) other = view h other) ∧
     view (dropRowH h fid i) fid = (view h fid).map (fun kc => (kc.1, { kc.2 with data := kc.2.data.eraseIdx i })) := by
-  sorry
+  exact dropRow_spec h hs fid hf i hi
 
 /-- `FillNa(v)` -/
 theorem fillNa_frame (h : H) (hs : Sep h) (fid : Nat) (hf : fid < h.frames.length) (v : Cell) :
@@ -52,7 +54,7 @@ theorem fillNa_frame (h : H) (hs : Sep h) (fid : Nat) (hf : fid < h.frames.lengt
     (∀ other, other ≠ fid → other < h.frames.length → view (fillNaH h fid v) other = view h other) ∧
     view (fillNaH h fid v) fid =
       (view h fid).map (fun kc => (kc.1, { kc.2 with data := kc.2.data.map (fun c => if c.isNil then v else c) })) := by
-  sorry
+  exact fillNa_spec h hs fid hf v
 
 /-- editors that assign freshly built slices (DropNa, Astype, AddDatetimeIndex, DropDuplicates in place) -/
 theorem replaceData_frame (h : H) (hs : Sep h) (fid : Nat) (hf : fid < h.frames.length)
@@ -61,7 +63,7 @@ theorem replaceData_frame (h : H) (hs : Sep h) (fid : Nat) (hf : fid < h.frames.
     (∀ other, other ≠ fid → other < h.frames.length → view (replaceData h fid newData) other = view h other) ∧
     view (replaceData h fid newData) fid =
       (view h fid).map (fun kc => (kc.1, { kc.2 with data := newData kc.1 kc.2.data })) := by
-  sorry
+  exact replaceData_spec h hs fid hf newData
 
 /-- the pinned `Head` returned sub-slices of the source (finding D4): it breaks separation, and appending
 a row to the result overwrites a cell of the SOURCE -/
@@ -89,6 +91,6 @@ theorem head_copy_is_safe :
 in-place operation changes only its target -/
 theorem step_changes_only_target (ω : Oracle) (p p' : Pool) (op : Op) (h : step ω p op = .ok p') :
     ∀ i, i < p.length → (op.inPlace = false ∨ i ≠ op.target) → p'[i]? = p[i]? := by
-  sorry
+  exact step_only_target ω p p' op h
 
 end Goframe.C02
